@@ -314,6 +314,7 @@ func run(c *core.Child) {
 			continue
 		}
 		for pi, f := range probes {
+			hostileLiterals(c, env, m, f, fmt.Sprintf("s%d/p%d/lit", si, pi))
 			arg := f.Args[0]
 			t := arg.Type
 			for vi := 0; vi < nValues; vi++ {
@@ -467,4 +468,70 @@ func runValue(c *core.Child, env *build.Env, m *model.Schema, f *model.FieldDef,
 			c.Nontrivial(core.HashString(hashBase + "def"))
 		}
 	}
+}
+
+// hostile numeric / string literal texts: whether each is a valid literal of
+// the argument's type is decided by the reference (coerce.ValidLiteral); an
+// invalid one must be refused before any resolver runs, a valid one must
+// reach the resolver as the reference coerces it.
+var literalTexts = []string{
+	"1e999", "-1e999", "1.7976931348623159e308", "1.7976931348623157e308", "4.9e-324", "1e-999", "0.0", "-0", "-0.0", "1E5", "1e+5",
+	"2147483647", "2147483648", "-2147483648", "-2147483649", "99999999999", "9223372036854775808", "-9223372036854775809",
+	"1" + strings.Repeat("0", 400), "0.1" + strings.Repeat("0", 400) + "1",
+	`"1e999"`, `"NaN"`, `"Inf"`, `"2147483648"`, `""`, `true`, `NaN`, `Infinity`, `[1e999]`, `[2147483648]`, `[[1]]`, `{}`,
+}
+
+func hostileLiterals(c *core.Child, env *build.Env, m *model.Schema, f *model.FieldDef, idPrefix string) {
+	arg := f.Args[0]
+	base := arg.Type.Base()
+	if !model.IsBuiltinScalar(base) && base != "Tag" {
+		return
+	}
+	for li, lit := range literalTexts {
+		id := fmt.Sprintf("%s%d", idPrefix, li)
+		if !c.Begin(id) {
+			continue
+		}
+		text := fmt.Sprintf("{ %s(a: %s) }", f.Name, lit)
+		doc, perr := syntax.Parse([]byte(text))
+		if perr != nil {
+			continue // not a literal at all (NaN / Infinity are names: enum literals — still parsed)
+		}
+		var node nast.Node
+		for _, def := range doc.Defs {
+			if op, ok := def.(*nast.Operation); ok {
+				node = op.Sel.Items[0].(*nast.Field).Args[0].Value
+			}
+		}
+		valid := coerce.ValidLiteral(m, arg.Type, node)
+		var r *harness.Run
+		if c.Guard("panic:Do", text, func() { r = harness.Do(env, text, "", nil, nil, nil) }) {
+			continue
+		}
+		c.Eval(1)
+		c.Feature(fmt.Sprintf("hostile-literal:valid=%v", valid))
+		c.Nontrivial(core.HashString("lit\x00" + arg.Type.String() + "\x00" + lit))
+		info := caseInfo{Type: arg.Type.String(), Value: lit, Route: "hostile-literal", Document: text}
+		_, ninv := argsAt(r, f.Name)
+		if !valid {
+			if r.Result.Data != nil || len(r.Result.Errors) == 0 || ninv > 0 {
+				c.Violation("accepted-invalid-literal", fmt.Sprintf("literal %s is not a valid %s but the response is %s (%d resolver invocations)", trunc(lit), arg.Type, respcmp.Canon(r.Result), ninv), info)
+			}
+			continue
+		}
+		exp := exec.Execute(m, doc, "", nil, nil, env.Seed)
+		for _, mm := range respcmp.Compare(exp, r.Result) {
+			c.Violation("mismatch:"+mm.Class, "hostile-literal: "+mm.Msg, info)
+		}
+		for _, mm := range harness.CompareInvocations(exp, r.Events, true) {
+			c.Violation("mismatch:"+mm.Class, "hostile-literal: "+mm.Msg, info)
+		}
+	}
+}
+
+func trunc(s string) string {
+	if len(s) > 80 {
+		return s[:80] + "…"
+	}
+	return s
 }
